@@ -73,10 +73,11 @@ SPECS["C09"] = {
          "quick_shards": 32, "thorough_shards": 64},
         {"name": "sub", "pkg": "magic", "harnesses": ["HC09Sub"], "quick_args": fix(maxlen=5), "thorough_args": fix(maxlen=6),
          "quick_shards": 16, "thorough_shards": 64},
+        {"name": "subtail", "pkg": "magic", "harnesses": ["HC09SubTail"], "quick_args": fix(maxlen=4), "thorough_args": fix(maxlen=5), "quick_shards": 32, "thorough_shards": 64},
         {"name": "alpha", "pkg": "magic", "harnesses": ["HC09Alpha"], "quick_args": fix(maxlen=8), "thorough_args": fix(maxlen=10), "quick_shards": 48, "thorough_shards": 64},
         {"name": "chain", "pkg": "json", "harnesses": ["HC16Chain"], "quick_args": fix(maxlen=3), "thorough_args": fix(maxlen=3), "quick_shards": 32, "thorough_shards": 64},
     ],
-    "must_reach": ["assert:chain-beyond-cap-not-parsed-completely", "assert:alpha-whole-json-implies-wellformed", "assert:alpha-prefix-json-implies-viable-prefix", "end", "assert:whole-json-implies-wellformed", "assert:prefix-json-implies-viable-prefix"],
+    "must_reach": ["assert:subtype-tail-implies-wellformed", "assert:subtype-tail-implies-viable-prefix", "assert:chain-beyond-cap-not-parsed-completely", "assert:alpha-whole-json-implies-wellformed", "assert:alpha-prefix-json-implies-viable-prefix", "end", "assert:whole-json-implies-wellformed", "assert:prefix-json-implies-viable-prefix"],
     "bounds": {"quick": {"length": "<= 6 (sub-types <= 5), all 256 byte values, limits 0 / len+1 / len; <= 8 over the structural alphabet; chains of <= 12 concrete openers + <= 3 symbolic bytes through Parse with cap 1..2"}, "thorough": {"length": "<= 7 (sub-types <= 6); alphabet <= 10"}},
     "outside": ["documents longer than the bound", "nesting deeper than the bound allows"],
     "assumptions": [],
